@@ -142,8 +142,12 @@ func c20PrecMatrix(f func(string)) {
 	}
 	put(c20PrecPick(5,
 		func(l []string) string { return l[0] + " ? " + l[1] + " : " + l[2] + " ? " + l[3] + " : " + l[4] },
-		func(l []string) string { return "(" + l[0] + " ? " + l[1] + " : " + l[2] + ") ? " + l[3] + " : " + l[4] },
-		func(l []string) string { return l[0] + " ? " + l[1] + " : (" + l[2] + " ? " + l[3] + " : " + l[4] + ")" }))
+		func(l []string) string {
+			return "(" + l[0] + " ? " + l[1] + " : " + l[2] + ") ? " + l[3] + " : " + l[4]
+		},
+		func(l []string) string {
+			return l[0] + " ? " + l[1] + " : (" + l[2] + " ? " + l[3] + " : " + l[4] + ")"
+		}))
 	for _, pre := range c20PreOps {
 		for _, op := range c20Binops {
 			put(c20PrecPick(2,
